@@ -1019,6 +1019,26 @@ func (h *harness) flush() {
 			model[i] = mRes[k]
 		}
 	}
+	// second model: the export after patch fix-c17-export-cycles. Its second loop depends on the map
+	// iteration order, so the line carries as a hint the once-referenced roots the Go run exported.
+	modelV := map[int]string{}
+	if !*nomodel {
+		var vIdx []int
+		var vLines []string
+		for _, i := range mIdx {
+			if vl := repairedLine(lines[i], goRes[i]); vl != "" {
+				vIdx, vLines = append(vIdx, i), append(vLines, vl)
+			}
+		}
+		vRes, err := vh.Driver{Path: *driver}.RunParallel(vLines)
+		if err != nil {
+			fmt.Fprintln(os.Stderr, err)
+			os.Exit(2)
+		}
+		for k, i := range vIdx {
+			modelV[i] = vRes[k]
+		}
+	}
 	for i, line := range lines {
 		ans := goRes[i]
 		op, _, _ := strings.Cut(line, " ")
@@ -1033,13 +1053,159 @@ func (h *harness) flush() {
 			h.classify(line, ans)
 			continue
 		}
-		if m, ok := model[i]; ok {
-			h.rep.Compared++
-			if canon(op, ans) != canon(op, m) {
+		m, ok := model[i]
+		if !ok {
+			continue
+		}
+		h.rep.Compared++
+		goC, mC := canon(op, ans), canon(op, m)
+		mv, hasV := modelV[i]
+		if !hasV {
+			// ops with a single model (build, predicates, list)
+			if goC != mC {
 				h.fails = append(h.fails, vh.Case{Kind: "disagreement", Op: line, Go: ans, Model: m, Detail: "input: " + describe(line)})
+			}
+			continue
+		}
+		h.rep.Compared++
+		vC := canon(op, mv)
+		switch {
+		case goC == mC && goC == vC:
+			h.rep.Count("t3:agrees-with-both-models")
+		case cycleClass(line):
+			// inside the known class the two modelled versions of the export differ; /repo is one of them
+			switch goC {
+			case mC:
+				h.rep.Count("t3:go-behaves-as-before-patch")
+			case vC:
+				h.rep.Count("t3:go-behaves-as-after-patch")
+			default:
+				h.fails = append(h.fails, vh.Case{Kind: "disagreement", Op: line, Go: ans, Model: m + "  |  after-patch model: " + mv,
+					Detail: "agrees with neither modelled version of the export; input: " + describe(line)})
+			}
+		default:
+			which := "the model of the export before patch fix-c17-export-cycles"
+			if goC == mC {
+				which = "the model of the export after patch fix-c17-export-cycles"
+			}
+			h.fails = append(h.fails, vh.Case{Kind: "disagreement", Op: line, Go: ans, Model: m + "  |  after-patch model: " + mv,
+				Detail: "differs from " + which + " on an input without a cycle of once-referenced blank nodes (where both models must agree); input: " + describe(line)})
+		}
+	}
+}
+
+// cycleClass: the line's input (one graph of it) has a cycle of once-referenced blank nodes and Inline is set.
+func cycleClass(line string) bool {
+	f := strings.Fields(line)
+	if len(f) < 3 {
+		return false
+	}
+	o, err := parseOpts(f[1])
+	if err != nil || !o.inline {
+		return false
+	}
+	data := f[len(f)-1]
+	if strings.HasPrefix(f[0], "desc.d") {
+		Q, err := parseQuads(data)
+		if err != nil {
+			return false
+		}
+		_, cyc, _ := someGraphCyclic(Q)
+		return cyc
+	}
+	T, err := parseTriples(data)
+	if err != nil {
+		return false
+	}
+	cyc, _ := cycleAllRefcount1(T)
+	return cyc
+}
+
+// repairedLine builds the protocol line for the after-patch model from a desc.* line and the Go answer
+// (from which the order of the second loop of ExportResources is read off); "" for ops with one model.
+func repairedLine(line, goAns string) string {
+	f := strings.Fields(line)
+	if len(f) < 3 {
+		return ""
+	}
+	o, err := parseOpts(f[1])
+	if err != nil {
+		return ""
+	}
+	body, _ := strings.CutPrefix(goAns, "ok:")
+	if !strings.HasPrefix(goAns, "ok:") {
+		body = ""
+	}
+	data := f[len(f)-1]
+	switch f[0] {
+	case "desc.exportone":
+		return "desc.exportonev " + strings.Join(f[1:], " ")
+	case "desc.export", "desc.flatten":
+		T, err := parseTriples(data)
+		if err != nil {
+			return ""
+		}
+		var hint []string
+		for _, r := range rootsOf(f[0], body) {
+			if isB(r[1]) && o.inline && refs(T, r[1]) == 1 {
+				hint = append(hint, r[1])
+			}
+		}
+		return f[0] + "v " + f[1] + " " + joinList(hint) + " " + data
+	case "desc.dexport", "desc.dflatten":
+		Q, err := parseQuads(data)
+		if err != nil {
+			return ""
+		}
+		var hint []string
+		for _, r := range rootsOf(f[0], body) {
+			if isB(r[1]) && o.inline && refs(graphTriples(Q, r[0]), r[1]) == 1 {
+				hint = append(hint, r[0]+">"+r[1])
+			}
+		}
+		return f[0] + "v " + f[1] + " " + joinList(hint) + " " + data
+	}
+	return ""
+}
+
+// rootsOf lists (graph, subject token) of the resources of an export / flatten answer, in order.
+// Export syntax: [G>]S(term){…} | [G>]A{…}; flatten: the subject of the last statement of a group is the
+// resource's subject (nested descriptions come first, the resource's own triple last).
+func rootsOf(op, body string) [][2]string {
+	var out [][2]string
+	if body == "" {
+		return out
+	}
+	switch op {
+	case "desc.export", "desc.dexport":
+		for _, r := range strings.Split(body, ";") {
+			g := "-"
+			if op == "desc.dexport" {
+				g, r, _ = strings.Cut(r, ">")
+			}
+			if rest, ok := strings.CutPrefix(r, "S("); ok {
+				if k := strings.Index(rest, ")"); k > 0 {
+					out = append(out, [2]string{g, rest[:k]})
+				}
+			}
+		}
+	case "desc.flatten", "desc.dflatten":
+		for _, grp := range strings.Split(body, "|") {
+			if grp == "" {
+				continue
+			}
+			items := strings.Split(grp, ";")
+			p := strings.Split(items[len(items)-1], ",")
+			g := "-"
+			if op == "desc.dflatten" && len(p) >= 4 {
+				g = p[3]
+			}
+			if len(p) >= 3 {
+				out = append(out, [2]string{g, p[0]})
 			}
 		}
 	}
+	return out
 }
 
 // describe decodes the statements of a protocol line for humans.
@@ -1570,6 +1736,9 @@ func main() {
 		os.Exit(2)
 	}
 	h := &harness{rep: rep, known: vh.KnownKeys(fs, "C17"), exe: exe}
+	for _, k := range []string{"known-class-but-ok:cycle-all-refcount-1", "known-class-but-ok:cross-graph-single-ref", "go:stack-overflow-confirmed"} {
+		rep.Hist[k] = 0 // always present in the report, also when zero
+	}
 	g := &gen{r: vh.NewRng(seed), h: h}
 
 	if *replay != "" {
@@ -1608,6 +1777,11 @@ func main() {
 		}
 	}
 	h.flush()
+	if rep.Hist["t3:go-behaves-as-before-patch"] > 0 && rep.Hist["t3:go-behaves-as-after-patch"] > 0 {
+		h.fails = append(h.fails, vh.Case{Kind: "disagreement", Op: "desc.export*", Detail: fmt.Sprintf(
+			"on inputs with a cycle of once-referenced blank nodes the implementation matched the before-patch model %d times and the after-patch model %d times: it is neither version consistently",
+			rep.Hist["t3:go-behaves-as-before-patch"], rep.Hist["t3:go-behaves-as-after-patch"])})
+	}
 
 	for _, c := range h.fails {
 		rep.Add(c)
@@ -1621,7 +1795,7 @@ func main() {
 	}
 	var sum bytes.Buffer
 	for _, k := range vh.SortedKeys(rep.Hist) {
-		if strings.HasPrefix(k, "known") || strings.HasPrefix(k, "go:") || strings.HasPrefix(k, "answer:") {
+		if strings.HasPrefix(k, "known") || strings.HasPrefix(k, "go:") || strings.HasPrefix(k, "answer:") || strings.HasPrefix(k, "t3:") {
 			fmt.Fprintf(&sum, " %s=%d", k, rep.Hist[k])
 		}
 	}
